@@ -12,10 +12,10 @@ from concurrent.futures import ThreadPoolExecutor
 from vlib import *
 
 try:
-    from checks import c02_flags
+    from checks import c02_flags, c02_batch
 except Exception:  # pragma: no cover
     try:
-        import c02_flags
+        import c02_flags, c02_batch
     except Exception:
         c02_flags = None
 
@@ -242,14 +242,25 @@ def mlr_json_batch(ctx, args, recs):
 SEPS_QUICK = [".", ".", ".", ":", ";", "::", "_", "@@"]
 
 
+def jsonl_bytes(recs):
+    return ("\n".join(jdumps(r) for r in recs) + "\n").encode("utf-8", "surrogateescape")
+
+
+def parse_jsonl(out, n):
+    try:
+        res = [jloads(l) for l in out.decode("utf-8", "surrogateescape").splitlines() if l.strip()]
+    except Exception:
+        return None
+    return res if len(res) == n else None
+
+
 def part1_flatten_unflatten(ctx, props_ok):
+    """all mlr command lines of this part are collected first and run in-process by implrun mlr-batch (c02_batch)"""
     rng = ctx.rng
-    nper = 70 if ctx.tier == "quick" else 600
-    terms, meta = [], []
-    oracle_bad = []
+    nper = 120 if ctx.tier == "quick" else 800
+    plan = []       # (kind, sep, fs, records, args, per_record)
     for sep in sorted(set(SEPS_QUICK)):
-        base = ["--ijson", "--ojsonl", "--flatsep", sep]
-        # kinds 0 and 2: arbitrary nested records (in and out of the theorem's domain)
+        base = ["--ijsonl", "--ojsonl", "--flatsep", sep]
         recs = []
         for i in range(nper):
             dom = "any" if i % 3 == 0 else "theorem"
@@ -263,77 +274,87 @@ def part1_flatten_unflatten(ctx, props_ok):
                  Obj([("", Obj([("k", NumText("1"))])), ("z", Obj([("", Obj([("w", NumText("3"))]))]))]),
                  Obj([("a", [Obj([("1", "x")]), Obj([("2", "y")])])]),
                  Obj([("a", Obj([("1", Obj([("1", "x")])), ("2", "y")]))])]
-        flat, e0 = mlr_json_batch(ctx, base + ["flatten"], recs)
-        both, e2 = mlr_json_batch(ctx, base + ["flatten", "then", "unflatten"], recs)
-        if flat is None or both is None:
-            ctx.violation({"broken": "mlr flatten/unflatten run failed", "sep": sep, "detail": e0 or e2}, found_input=False)
-            continue
-        for r, f, b in zip(recs, flat, both):
-            terms.append("(0, %s, %s, %s)" % (coq_bytes(sep.encode()), coq_jmap(r), coq_jmap(f)))
-            meta.append(("flatten", sep, r, f))
-            terms.append("(2, %s, %s, %s)" % (coq_bytes(sep.encode()), coq_jmap(r), coq_jmap(b)))
-            meta.append(("flatten-then-unflatten", sep, r, b))
-            ctx.count(("p1", 0, sep, jdumps(r)))
-            ctx.count(("p1", 2, sep, jdumps(r)))
-            # ---- property oracle: JSON -> flatten -> unflatten is the identity on collections whose keys are
-            # non-empty and free of the separator (property statement)
-            loss = classify_loss(r, sep)
-            if b != r and not (loss & {"emptykey", "sepkey", "dupkeys", "digitsep"}) and not sep_selfoverlap(sep, r):
-                cls = ("unflatten-arrayifies-int-keyed-map" if "intkeyed" in loss else
-                       "sentinel-string-becomes-collection" if "sentinel" in loss else "flatten-unflatten-roundtrip-other")
-                oracle_bad.append({"class": cls, "sep": sep, "input": jdumps(r), "observed": jdumps(b), "expected": jdumps(r),
-                                   "how": "mlr --ijson --ojsonl --flatsep '%s' flatten then unflatten" % sep})
-        # kind 1: unflatten alone on arbitrary flat-ish records
+        plan.append((0, sep, [], recs, base + ["flatten"], False))
+        plan.append((2, sep, [], recs, base + ["flatten", "then", "unflatten"], False))
         frecs = [gen_flat_record(rng, sep) for _ in range(nper)]
         ctx.dist("p1_unflatten_inputs", len(frecs))
-        unf, e1 = mlr_json_batch(ctx, base + ["unflatten"], frecs)
-        if unf is None:
-            ctx.violation({"broken": "mlr unflatten run failed", "sep": sep, "detail": e1}, found_input=False)
-            continue
-        for r, u in zip(frecs, unf):
-            terms.append("(1, %s, %s, %s)" % (coq_bytes(sep.encode()), coq_jmap(r), coq_jmap(u)))
-            meta.append(("unflatten", sep, r, u))
-            ctx.count(("p1", 1, sep, jdumps(r)))
-        # kind 3: JSON -> tabular -> JSON through files (auto-flatten / auto-unflatten), leaves that survive text
+        plan.append((1, sep, [], frecs, base + ["unflatten"], False))
+        # -f variants: a random subset of the top-level names (plus sometimes a name that does not occur)
+        nf = nper // 2
+        for kind, pool in ((4, recs), (6, recs), (5, frecs)):
+            for r in rng.sample(pool, min(nf, len(pool))):
+                names = list(dict.fromkeys([k.split(sep)[0] if kind == 5 else k for k, _ in r]))
+                names = [n for n in names if n != "" and "," not in n]
+                fs = rng.sample(names, rng.randint(0, len(names))) if names else []
+                if rng.random() < 0.2:
+                    fs.append("nosuch")
+                if not fs:
+                    fs = ["nosuch"]
+                verb = {4: ["flatten", "-f", ",".join(fs)], 5: ["unflatten", "-f", ",".join(fs)],
+                        6: ["flatten", "-f", ",".join(fs), "then", "unflatten", "-f", ",".join(fs)]}[kind]
+                plan.append((kind, sep, fs, [r], base + verb, True))
+                ctx.dist("p1_fields_kind%d" % kind)
         if len(sep) == 1:
             trecs = [gen_record(rng, sep, "tabular", intseq=False) for _ in range(nper // 2)]
-            ctx.dist("p1_tabular_trip", len(trecs))
+            ctx.dist("p1_tabular_trip", 2 * len(trecs))
             for mid in ("dkvp", "xtab"):
-                st, mid_out, err = mlr_run(ctx, ["--ijson", "-o", mid, "--flatsep", sep, "cat"],
-                                           ("\n".join(jdumps(r) for r in trecs) + "\n").encode(), timeout=60)
-                if classify_run(st, err) != "ok":
-                    ctx.violation({"broken": "json->%s failed" % mid, "stderr": err.decode("utf-8", "replace")[-500:]}, found_input=False)
-                    continue
-                st, back, err = mlr_run(ctx, ["-i", mid, "--ojsonl", "--flatsep", sep, "cat"], mid_out, timeout=60)
-                try:
-                    res = [jloads(l) for l in back.decode("utf-8", "surrogateescape").splitlines() if l.strip()]
-                except Exception:
-                    res = []
-                if classify_run(st, err) != "ok" or len(res) != len(trecs):
-                    ctx.violation({"broken": "%s->json failed" % mid, "stderr": err.decode("utf-8", "replace")[-500:]}, found_input=False)
-                    continue
-                for r, b in zip(trecs, res):
-                    terms.append("(3, %s, %s, %s)" % (coq_bytes(sep.encode()), coq_jmap(r), coq_jmap(b)))
-                    meta.append(("json->%s->json" % mid, sep, r, b))
-                    ctx.count(("p1", 3, mid, sep, jdumps(r)))
-                    loss = classify_loss(r, sep)
-                    if b != r and not (loss & {"emptykey", "sepkey", "dupkeys", "digitsep"}):
-                        cls = ("unflatten-arrayifies-int-keyed-map" if "intkeyed" in loss else
-                               "sentinel-string-becomes-collection" if "sentinel" in loss else "json-tabular-json-other")
-                        oracle_bad.append({"class": cls, "sep": sep, "via": mid, "input": jdumps(r), "observed": jdumps(b), "expected": jdumps(r),
-                                           "how": "mlr --ijson -o %s --flatsep '%s' cat | mlr -i %s --ojsonl --flatsep '%s' cat" % (mid, sep, mid, sep)})
+                plan.append((3, sep, [], trecs, ["--ijsonl", "-o", mid, "--flatsep", sep, "cat"], mid))
+    res = c02_batch.run_jobs(ctx, [(p[4], jsonl_bytes(p[3])) for p in plan], label="part1_impl_batch")
+    # second leg of the tabular trips
+    legs = [(i, p) for i, p in enumerate(plan) if p[0] == 3]
+    res2 = c02_batch.run_jobs(ctx, [(["-i", p[5], "--ojsonl", "--flatsep", p[1], "cat"], res[i][1]) for i, p in legs],
+                              label="part1_impl_batch", crosscheck=0)
+    back = {i: r for (i, p), r in zip(legs, res2)}
+    terms, meta, oracle_bad = [], [], []
+    KIND = {0: "flatten", 1: "unflatten", 2: "flatten then unflatten", 3: "json->tabular->json", 4: "flatten -f", 5: "unflatten -f",
+            6: "flatten -f then unflatten -f"}
+    for i, (kind, sep, fs, recs, args, extra) in enumerate(plan):
+        st, out, err = res[i]
+        if kind == 3:
+            if st == 0:
+                st, out, err = back[i]
+            how = "mlr %s | mlr -i %s --ojsonl --flatsep '%s' cat" % (" ".join(args), extra, sep)
+        else:
+            how = "mlr " + " ".join(args)
+        outs = parse_jsonl(out, len(recs)) if st == 0 else None
+        crashed = (outs is None and kind in (5, 6) and b"Internal coding error" in (err if isinstance(err, bytes) else str(err).encode()))
+        if outs is None and not crashed:
+            ctx.violation({"broken": "mlr run failed or output unparseable", "how": how, "status": st,
+                           "stderr": (err.decode("utf-8", "replace") if isinstance(err, bytes) else str(err))[-500:],
+                           "input": jsonl_bytes(recs).decode("utf-8", "replace")[:3000]}, found_input=False)
+            continue
+        for j, r in enumerate(recs):
+            o = Obj([]) if crashed else outs[j]
+            terms.append("(%d, %s, [%s], %s, %s, %s)" % (kind, coq_bytes(sep.encode()), "; ".join(coq_bytes(f.encode("utf-8", "surrogateescape")) for f in fs),
+                                                          coq_jmap(r), coq_bool(crashed), coq_jmap(o)))
+            meta.append((KIND[kind], sep, fs, r, "CRASH (Internal coding error detected)" if crashed else o, how))
+            ctx.count(("p1", kind, sep, tuple(fs), str(extra), jdumps(r)))
+            if crashed:
+                ctx.dist("p1_unflatten_f_internal_coding_error")
+            # ---- property oracle: nested -> flat -> nested is the identity on collections whose keys are non-empty and
+            # free of the separator (property statement); with -f the unselected fields must come back untouched as well
+            if kind in (2, 3, 6):
+                loss = classify_loss(r, sep)
+                if (crashed or o != r) and not (loss & {"emptykey", "sepkey", "dupkeys", "digitsep"}) and not sep_selfoverlap(sep, r):
+                    cls = ("unflatten-arrayifies-int-keyed-map" if "intkeyed" in loss else
+                           "sentinel-string-becomes-collection" if "sentinel" in loss else
+                           {2: "flatten-unflatten-roundtrip-other", 3: "json-tabular-json-other", 6: "flatten-f-unflatten-f-roundtrip-other"}[kind])
+                    oracle_bad.append({"class": cls, "sep": sep, "fields": fs, "via": extra if kind == 3 else None, "input": jdumps(r),
+                                       "observed": "crash" if crashed else jdumps(o), "expected": jdumps(r), "how": how, "kind": kind, "args": args})
     for i in (0, 1, len(meta) // 2, len(meta) - 1):
         if 0 <= i < len(meta):
-            k, sep, r, o = meta[i]
-            ctx.sample({"part": 1, "kind": k, "sep": sep, "input": jdumps(r), "observed": jdumps(o)})
+            k, sep, fs, r, o, how = meta[i]
+            ctx.sample({"part": 1, "kind": k, "sep": sep, "fields": fs, "input": jdumps(r), "observed": o if isinstance(o, str) else jdumps(o)})
     # ---- correspondence in Coq
     bad, err = [], ""
     if props_ok:
         with ctx.timed("coq_cases"):
             # at most two coqc processes at a time (shared machine): two shards per call, calls in sequence
-            shard = 600
+            n2 = (len(terms) + 1) // 2 if len(terms) <= 6000 else 1500
+            shard = max(1, n2)
             for k in range(0, len(terms), 2 * shard):
-                b, e = coq_eval_mismatches(ctx, "C02", "C02.Model C02.Harness", "Z * bytes * jmap * jmap", "chk", terms[k:k + 2 * shard], shard=shard)
+                b, e = coq_eval_mismatches(ctx, "C02", "C02.Model C02.Harness", "Z * bytes * list bytes * jmap * bool * jmap", "chk",
+                                           terms[k:k + 2 * shard], shard=shard)
                 bad += [(k + i if i >= 0 else i) for i in b]
                 err += e
         ctx.cov["correspondence"] = {"cases": len(terms), "mismatches": len(bad)}
@@ -343,10 +364,10 @@ def part1_flatten_unflatten(ctx, props_ok):
         for i in bad:
             if i < 0 or rep >= 3:
                 continue
-            k, sep, r, o = meta[i]
+            k, sep, fs, r, o, how = meta[i]
             rep += 1
-            ctx.violation({"broken": "correspondence C02.Harness.chk (model and implementation differ)", "kind": k, "sep": sep,
-                           "input": jdumps(r), "observed": jdumps(o)}, found_input=False)
+            ctx.violation({"broken": "correspondence C02.Harness.chk (model and implementation differ)", "kind": k, "sep": sep, "fields": fs,
+                           "input": jdumps(r), "observed": o if isinstance(o, str) else jdumps(o), "how": how}, found_input=False)
     # ---- report oracle findings: one (smallest) witness per class
     byclass = {}
     for b in oracle_bad:
@@ -379,7 +400,16 @@ def data_classes(rng):
     nested = [Obj([("id", NumText(str(i))), ("req", Obj([("method", rng.choice(TOKENS)), ("sz", [NumText("1"), NumText(str(i + 2)), Obj([("u", rng.choice(TOKENS))])])])),
                    ("tags", [rng.choice(TOKENS), rng.choice(TOKENS)]), ("e", Obj([])), ("l", [])]) for i in range(3)]
     all_but_nidx = [f for f in FORMATS if f != "nidx"]
+    jnums = ["1e5", "-0.0", "1E-3", "0.5", "-7", "12345678901234567890", "1.7976931348623157e308", "100", "0", "2.50", "6.02e+23"]
+    numbers = [Obj([(k, NumText(rng.choice(jnums))) for k in ["n1", "n2", "n3"]]) for _ in range(5)]
+    qvals = ["line1\nline2", "tab\there", 'say "hi"', '"', "a,b", " lead", "trail ", "a;b|c=d", "{x}", "[1,2]", "it's", "", "#c", "-"]
+    quoted = [Obj([(k, rng.choice(qvals)) for k in ["q1", "q 2", "q,3"]]) for _ in range(6)]
+    uvals = ["é", "日本語", "naïve", "Ωmega", "x€y", "ß", "a-ü-b"]
+    unicode_ = [Obj([(k, rng.choice(uvals)) for k in ["clé", "名前", "k3"]]) for _ in range(4)]
     return [
+        ("numbers", numbers, all_but_nidx),
+        ("quoted", quoted, ["csv", "tsv", "json", "jsonl"]),
+        ("unicode", unicode_, all_but_nidx),
         ("tokens", tokens, all_but_nidx),
         ("positional", positional, FORMATS),
         ("rich", rich, ["csv", "tsv", "json", "jsonl", "dkvpx", "yaml"]),
@@ -396,28 +426,22 @@ def part3_conversions(ctx):
     jobs = []
     canon = {}
     classes = data_classes(rng)
+    cjobs = [(name, f, ("\n".join(jdumps(r) for r in recs) + "\n").encode()) for name, recs, fmts in classes for f in fmts]
+    cres = c02_batch.run_jobs(ctx, [(["--ijsonl"] + OUT_FLAG[f] + ["cat"], src) for name, f, src in cjobs], label="part3_impl_batch", crosscheck=0)
+    for (name, f, src), (st, out, err) in zip(cjobs, cres):
+        if classify_run(st, err) != "ok":
+            ctx.violation({"broken": "json->%s on data class %s" % (f, name), "stderr": err.decode("utf-8", "replace")[-500:]}, found_input=False)
+            continue
+        canon[(name, f)] = out
     for name, recs, fmts in classes:
-        src = ("\n".join(jdumps(r) for r in recs) + "\n").encode()
-        for f in fmts:
-            st, out, err = mlr_run(ctx, ["--ijsonl"] + OUT_FLAG[f] + ["cat"], src, timeout=30)
-            if classify_run(st, err) != "ok":
-                ctx.violation({"broken": "json->%s on data class %s" % (f, name), "stderr": err.decode("utf-8", "replace")[-500:]}, found_input=False)
-                continue
-            canon[(name, f)] = out
-        # representability: the canonical text of each format must read back to the master (else the class is outside
-        # the property's domain for that format and the generator is wrong, not the implementation)
         for a in fmts:
             for b in fmts:
                 if name == "positional" and ctx.tier == "quick" and "nidx" not in (a, b):
                     continue        # the pairs without nidx are exercised by the class "tokens"
                 if (name, a) in canon and (name, b) in canon:
                     jobs.append((name, a, b))
-    def conv(job):
-        name, a, b = job
-        st, out, err = mlr_run(ctx, IN_FLAG[a] + OUT_FLAG[b] + ["cat"], canon[(name, a)], timeout=30)
-        return job, classify_run(st, err), out, err
-    with ThreadPoolExecutor(3) as ex:
-        results = list(ex.map(conv, jobs))
+    pres = c02_batch.run_jobs(ctx, [(IN_FLAG[a] + OUT_FLAG[b] + ["cat"], canon[(name, a)]) for name, a, b in jobs], label="part3_impl_batch", crosscheck=4)
+    results = [(job, classify_run(st, err), out, err) for job, (st, out, err) in zip(jobs, pres)]
     npairs = 0
     failing = []
     for (name, a, b), cls, out, err in results:
@@ -449,7 +473,7 @@ def part3_conversions(ctx):
     # two direct probes of the YAML reader (the causes behind class conversion-from-yaml on today's tree)
     for cls_name, inp, want in (("yaml-reader-sorts-keys", b"- b: 1\n  a: 2\n", b'{"b": 1, "a": 2}\n'),
                                 ("yaml-reader-reformats-numbers", b"- a: 3.0\n  b: 1.50\n", b'{"a": 3.0, "b": 1.50}\n')):
-        st, out, err = mlr_run(ctx, ["--iyaml", "--ojsonl", "cat"], inp, timeout=30)
+        st, out, err = c02_batch.run_jobs(ctx, [(["--iyaml", "--ojsonl", "cat"], inp)], label="part3_impl_batch", crosscheck=0)[0]
         ctx.count(("p3-yaml-probe", cls_name))
         if out != want:
             ctx.violation({"class": cls_name, "input": inp.decode(), "observed": out.decode("utf-8", "replace"), "expected": want.decode(),
@@ -467,13 +491,12 @@ def io_name_probes(ctx):
     for short, long_, inp in ((["-i", "jsonl", "--ojson"], ["--ijsonl", "--ojson"], b'{"a": 1, "b": "x"}\n'),
                               (["--io", "jsonl"], ["--jsonl"], b'{"a": 1, "b": "x"}\n'),
                               (["--io", "md"], ["--md"], md)):
-        r1 = mlr_run(ctx, short + ["cat"], inp, timeout=30)
-        r2 = mlr_run(ctx, long_ + ["cat"], inp, timeout=30)
+        r1, r2 = c02_batch.run_jobs(ctx, [(short + ["cat"], inp), (long_ + ["cat"], inp)], label="flag_oracle_batch", crosscheck=0)
         ctx.count(("p2-io-name", tuple(short)))
         ctx.dist("flags_oracle_io_names")
         if (r1[0], r1[1]) != (r2[0], r2[1]):
             b = {"class": "flag-spelling:%s-rejected" % "_".join(short[:2]), "flag": " ".join(short), "expansion": " ".join(long_),
-                 "input": inp.decode(), "observed": {"status": r1[0], "stdout": r1[1].decode("utf-8", "replace"), "stderr": r1[2].decode("utf-8", "replace")[-300:]},
+                 "input": inp.decode(), "observed": {"status": r1[0], "stdout": r1[1].decode("utf-8", "replace"), "stderr": r1[2].decode("utf-8", "replace")[-300:].replace("/tmp/", "")},
                  "expected": {"status": r2[0], "stdout": r2[1].decode("utf-8", "replace")},
                  "how": "mlr %s cat  vs  mlr %s cat" % (" ".join(short), " ".join(long_))}
             out.append(b)
@@ -503,7 +526,7 @@ def run(ctx):
                                "implrun flag-table/flag-eval translator (reflection dump of TOptions)", "python harness; Python json module as JSON parser of mlr output"]
     ctx.assumptions = ["JSON reader/writer, CSV/TSV/... codecs are not modelled here (C01); conversions across formats are tied by mlr runs only",
                        "A->B = A->C->B is proved in Coq only parametrically in reader/writer functions that satisfy round-trip (C02_conv_via)"]
-    deps = ["C02/Harness.vo", "C02/Proofs.vo", "C02/FlagProofs.vo", "C02/FlagExtra.vo"]
+    deps = ["C02/Harness.vo", "C02/Proofs.vo", "C02/ProofsE.vo", "C02/FlagProofs.vo", "C02/FlagExtra.vo"]
     parts = set((os.environ.get("C02_PARTS") or "1,2,3").split(","))   # developer switch; the registered commands run all parts
     flags_mod = c02_flags if "2" in parts else None
     if flags_mod is not None:
@@ -549,19 +572,18 @@ def run(ctx):
 
 def replay(ctx, path):
     obj = json.loads(Path(path).read_text())
-    if "how" in obj and obj.get("class", "").startswith(("unflatten-", "sentinel-", "flatten-unflatten", "json-tabular")):
+    if obj.get("class", "").startswith(("unflatten-", "sentinel-", "flatten-unflatten", "json-tabular", "flatten-f-")):
         sep = obj["sep"]
         r = jloads(obj["input"])
-        if obj.get("via"):
-            st, mid, err = mlr_run(ctx, ["--ijson", "-o", obj["via"], "--flatsep", sep, "cat"], (obj["input"] + "\n").encode())
-            st, out, err = mlr_run(ctx, ["-i", obj["via"], "--ojsonl", "--flatsep", sep, "cat"], mid)
-            res = [jloads(l) for l in out.decode().splitlines() if l.strip()]
-        else:
-            res, e = mlr_json_batch(ctx, ["--ijson", "--ojsonl", "--flatsep", sep, "flatten", "then", "unflatten"], [r])
+        args = obj.get("args") or ["--ijsonl", "--ojsonl", "--flatsep", sep, "flatten", "then", "unflatten"]
+        st, out, err = mlr_run(ctx, args, (obj["input"] + "\n").encode())
+        if obj.get("via") and st == 0:
+            st, out, err = mlr_run(ctx, ["-i", obj["via"], "--ojsonl", "--flatsep", sep, "cat"], out)
+        res = parse_jsonl(out, 1) if st == 0 else None
         ctx.count(("replay", obj["input"]))
-        print("replay: input=%s observed=%s" % (obj["input"], jdumps(res[0]) if res else None))
+        print("replay: input=%s observed=%s" % (obj["input"], jdumps(res[0]) if res else (st, err[-200:])))
         if not res or res[0] != r:
-            ctx.violation(dict(obj, replayed=True, observed=jdumps(res[0]) if res else None))
+            ctx.violation(dict(obj, replayed=True, observed=jdumps(res[0]) if res else "status %s" % st))
         return
     if obj.get("class", "").startswith("yaml-reader-"):
         st, out, err = mlr_run(ctx, ["--iyaml", "--ojsonl", "cat"], obj["input"].encode())
@@ -581,8 +603,8 @@ def replay(ctx, path):
         st3, out2, err3 = mlr_run(ctx, ["--ijson"] + OUT_FLAG[b] + ["cat"], mid)
         ctx.count(("replay", a, b))
         print("replay: %s->%s direct=%r via-json=%r" % (a, b, out[:200], out2[:200]))
-        if out != out2 or st != 0:
-            ctx.violation(dict(obj, replayed=True))
+        if out != out2 or st != 0 or ("expected" in obj and out.decode("utf-8", "replace") != obj["expected"][:2000]):
+            ctx.violation(dict(obj, replayed=True, observed=out.decode("utf-8", "replace")[:2000]))
         return
     if obj.get("class", "").startswith("flag-spelling:") and c02_flags is not None:
         # re-run the spelling oracle (it is cheap) and report the stored class again if it is still among the mismatches
